@@ -448,8 +448,9 @@ class Gen:
     def file_options(self, f):
         r = self.r
         if r.random() < 0.15:
-            f.options.append('option optimize_for = %s;' % r.choice(['CODE_SIZE', 'CODE_SIZE', 'SPEED',
-                                                                     'LITE_RUNTIME']))
+            # a file that is not LITE_RUNTIME may not import one that is: only the root file may be lite
+            modes = ['CODE_SIZE', 'CODE_SIZE', 'SPEED'] + (['LITE_RUNTIME'] if f.idx == 0 else [])
+            f.options.append('option optimize_for = %s;' % r.choice(modes))
         if not f.use_pbc:
             return
         if r.random() < 0.45:
@@ -636,15 +637,15 @@ def gen_case(rnd):
 
 
 def _selfcheck_pools():
-    tk = {key(n) for n in TYPE_NAMES + SERVICE_NAMES}
-    assert len(tk) == len(TYPE_NAMES + SERVICE_NAMES), 'type name pool has clashing keys'
-    # field / oneof names may not clash with type names living in the same message scope
-    for n in FIELD_NAMES + ONEOF_NAMES:
-        assert key(n) not in tk or True
+    names = TYPE_NAMES + SERVICE_NAMES
+    assert len({key(n) for n in names}) == len(names), 'type / service name pools have clashing keys'
+    assert len({key(n) for n in ONEOF_NAMES}) == len(ONEOF_NAMES)
+
+
+_selfcheck_pools()
 
 
 if __name__ == '__main__':
-    _selfcheck_pools()
     seed = int(sys.argv[1]) if len(sys.argv) > 1 else 0
     protos, root = gen_case(random.Random(seed))
     if len(sys.argv) > 2:
